@@ -511,7 +511,7 @@ func (b *builder) malformedCase() {
 		lines = append(lines, l)
 	}
 	// release whatever may be held (ids used by the pool), then stop
-	for _, id := range []string{"1", "8", "9", "10", "11", "11", "11", "12"} {
+	for _, id := range []string{"1", "7", "8", "9", "10", "11", "11", "11", "12"} {
 		lines = append(lines, "finish "+id)
 	}
 	lines = append(lines, "settle", "shutdown", "status")
